@@ -205,12 +205,22 @@ class CellList:
         return _result(_load().mv_query_index(self._h, int(i)))
 
 
+def _guard(cutoff, pos, cel):
+    """A NaN cutoff/extension makes the C++ copy count undefined behaviour (the
+    compiled module crashes or exhausts memory).  The stand-in raises instead,
+    so that a check sees an exception at the call site rather than losing its
+    worker process."""
+    if cutoff != cutoff or not np.isfinite(pos).all() or not np.isfinite(cel).all():
+        raise FloatingPointError("non-finite cutoff/positions/cell passed to matid.ext (undefined behaviour in the C++ core)")
+
+
 def extend_system(positions, atomic_numbers, cell, pbc, cutoff):
     lib = _load()
     pos = _f(positions).reshape(-1, 3)
     num = np.ascontiguousarray(np.asarray(atomic_numbers, dtype=np.int32))
     cel = _f(cell)
     pb = _b3(pbc)
+    _guard(cutoff, pos, cel)
     status = ctypes.c_int(0)
     h = lib.mv_extend_system(_dp(pos), _ip(num), num.shape[0], _dp(cel), _bp(pb), float(cutoff), ctypes.byref(status))
     if not h:
@@ -233,6 +243,8 @@ def get_cell_list(positions, cell, pbc, extension, cutoff):
     pos = _f(positions).reshape(-1, 3)
     cel = _f(cell)
     pb = _b3(pbc)
+    _guard(extension, pos, cel)
+    _guard(cutoff, pos, cel)
     status = ctypes.c_int(0)
     h = lib.mv_cell_list(_dp(pos), pos.shape[0], _dp(cel), _bp(pb), float(extension), float(cutoff), ctypes.byref(status))
     if not h:
@@ -248,6 +260,7 @@ def get_displacement_tensor(displacements, distances, factors, positions, cell, 
     pos = _f(positions).reshape(-1, 3)
     cel = _f(cell)
     pb = _b3(pbc)
+    _guard(cutoff, pos, cel)
     st = lib.mv_displacement_tensor(
         _dp(displacements), _dp(distances), _dp(factors), _dp(pos), pos.shape[0], _dp(cel), _bp(pb),
         float(cutoff), int(bool(return_factors)), int(bool(return_distances)),
